@@ -281,6 +281,27 @@ def rule_header_tables(ctx, R="C14/header-tables"):
                       "%s reads %s bytes at %s (expected header.%s * header.%s at header.%s)" % (fn, show(ln)[:90], show(core(a[1]))[:40], esz, num, off))
 
 
+def rule_zero_length_read(ctx, R="C14/zero-length-read"):
+    """reading the same module from memory and from its file gives the same answers, also for an EMPTY range (an empty first executable
+    section folds to the all-zero id): ProcessMemory::read rejects a zero length only in the Process arm, where the raw allocation
+    needs a non-zero size; the slice/file arm returns the empty sub-slice"""
+    b = ctx.body(R, MR + "::ProcessMemory::read")
+    if b is None:
+        return
+    o = Origin(b)
+    nz = [bi for bi, t in b.calls(lambda c: "NonZero" in (c.short or "") and (c.short or "").split("::")[-1] == "new")]
+    ctx.floor(R, "NonZero::new in ProcessMemory::read", len(nz), 1)
+    vs = None
+    for name, a in ctx.prog.adts.items():
+        if name.endswith("module_reader::ProcessMemory"):
+            vs = [v.get("name") for v in a.get("variants", [])]
+    for bi in nz:
+        dnf = conditions(b, bi, origin=o, relevant=lambda a_: a_[0] == "discr" and root(strip(a_[1])) == ("param", 1))
+        ok = bool(dnf) and vs is not None and all(any((v_ == vs.index("Process")) for (a_, v_) in c) for c in dnf)
+        ctx.check(ok, R, "process-arm-only", b.where(bi), "the zero-length rejection is reached only in the Process arm",
+                  "a zero-length read is rejected for every kind of backing memory: an empty section/segment of a file-backed module is an error there but not ... (paths: %s)" % [[(show(a_)[:40], v_) for a_, v_ in c] for c in (dnf or [])][:2])
+
+
 def run(ctx):
     from rules import preds
     preds.run(ctx, PROPERTY, ['is_process_memory', 'dynamic-segment', 'dynamic-section'])   # the opaque predicates these rules lean on, against oracle tables
@@ -289,4 +310,5 @@ def run(ctx):
     rule_scan_all_notes(ctx)
     rule_text_section_predicate(ctx)
     rule_header_tables(ctx)
+    rule_zero_length_read(ctx)
     rule_mem_file_siblings(ctx)
